@@ -473,7 +473,8 @@ class FieldWrapper(Wrapper):
                 f"field postprocessing for Enum field '{self.name}' with value:"
                 f" {raw_parsed_value}'"
             )
-            if isinstance(raw_parsed_value, str):
+            # (A member of a `class X(str, Enum)` is a `str` too: it is already parsed.)
+            if isinstance(raw_parsed_value, str) and not isinstance(raw_parsed_value, Enum):
                 raw_parsed_value = self.type[raw_parsed_value]  # type: ignore
             return raw_parsed_value
 
